@@ -1615,7 +1615,8 @@ class SemanticAnalyzer(
                             setter_func_type = function_type(item.func, self.function_type())
                             assert isinstance(setter_func_type, CallableType)
                             bare_setter_type = setter_func_type
-                            defn.setter_index = i + 1
+                            # Unexpected items before this one are deleted below.
+                            defn.setter_index = i + 1 - len(deleted_items)
                         for other_node in item.decorators[1:]:
                             other_node.accept(self)
                     else:
